@@ -919,7 +919,8 @@ def run_confusion(job, io):
         for k in list(range(0, nl + 3)) + [nl * 2 + 5]:
             io.progress({'site': 'confusion:leaf-count', 'tape': tape.values})
             probes['leafcount-sweep'] += 1
-            for how in ('unflatten', 'walk', 'traverse', 'tree_unflatten_iter'):
+            for how in ('unflatten', 'walk', 'traverse', 'tree_unflatten_iter', 'unflatten_gen', 'unflatten_map', 'unflatten_chain', 'unflatten_tuple', 'unflatten_deque',
+                        'walk_gen', 'traverse_iter', 'unflatten_dictkeys'):
                 try:
                     lv = [U.Leaf(i) for i in range(k)]
                     if how == 'unflatten':
@@ -928,6 +929,23 @@ def run_confusion(job, io):
                         sp.walk(lv)
                     elif how == 'traverse':
                         sp.traverse(lv)
+                    elif how == 'unflatten_gen':  # the count of a lazy producer is only known by consuming it
+                        sp.unflatten(x for x in lv)
+                    elif how == 'unflatten_map':
+                        sp.unflatten(map(lambda x: x, lv))
+                    elif how == 'unflatten_chain':
+                        import itertools as _it
+                        optree.tree_unflatten(sp, _it.chain(lv[:1], lv[1:]))
+                    elif how == 'unflatten_tuple':
+                        sp.unflatten(tuple(lv))
+                    elif how == 'unflatten_deque':
+                        sp.unflatten(deque(lv))
+                    elif how == 'walk_gen':
+                        sp.walk(x for x in lv)
+                    elif how == 'traverse_iter':
+                        sp.traverse(iter(lv))
+                    elif how == 'unflatten_dictkeys':
+                        sp.unflatten({x: None for x in lv}.keys())
                     else:
                         optree.tree_unflatten(sp, iter(lv))
                     if k != nl:
